@@ -80,32 +80,43 @@ MComment(cs, p) == IF At(cs, p) = 47 /\ At(cs, p + 1) = 47
                    THEN LET a == Run(NotNL, cs, p + 2) IN 2 + a + Run(IsNL, cs, p + 2 + a) ELSE 0
 
 \* longest literal (keyword or punctuation) at p: <<length, class>>
-LitMatches(cs, p) == {i \in 1..Len(Keywords) : StartsWith(cs, p, S(Keywords[i]))}
-PunMatches(cs, p) == {i \in 1..Len(Puncts) : StartsWith(cs, p, S(Puncts[i]))}
+KwCps == [i \in 1..Len(Keywords) |-> S(Keywords[i])]          \* constant tables (evaluated once)
+PunCps == [i \in 1..Len(Puncts) |-> S(Puncts[i])]
+LitMatches(cs, p) == {i \in 1..Len(Keywords) : StartsWith(cs, p, KwCps[i])}
+PunMatches(cs, p) == {i \in 1..Len(Puncts) : StartsWith(cs, p, PunCps[i])}
 Longest(names, idx) == CHOOSE i \in idx : \A j \in idx : Len(names[j]) <= Len(names[i])
-BestLiteral(cs, p) ==
-  LET k == LitMatches(cs, p) u == PunMatches(cs, p) IN
-  IF k # {} THEN LET i == Longest(Keywords, k) IN <<Len(Keywords[i]), Keywords[i]>>
-  ELSE IF u # {} THEN LET i == Longest(Puncts, u) IN <<Len(Puncts[i]), Puncts[i]>>
-  ELSE <<0, "">>
+BestKeyword(cs, p) == LET k == LitMatches(cs, p) IN
+                      IF k # {} THEN LET i == Longest(Keywords, k) IN <<Len(Keywords[i]), Keywords[i]>> ELSE <<0, "">>
+BestPunct(cs, p) == LET u == PunMatches(cs, p) IN
+                    IF u # {} THEN LET i == Longest(Puncts, u) IN <<Len(Puncts[i]), Puncts[i]>> ELSE <<0, "">>
 
 \* the token (or skip, or error) at position p: [k |-> "tok"|"skip"|"err", n |-> length, c |-> class]
+\* Longest match; on equal length: literal > value pattern > identifier/index.  The candidates are
+\* dispatched on the first character (every pattern has a fixed set of possible first characters).
 Max(a, b) == IF a >= b THEN a ELSE b
+Tok(n, c) == [k |-> "tok", n |-> n, c |-> c]
 TokenAt(cs, p) ==
-  LET lit == BestLiteral(cs, p)
-      pats == << <<MString(cs, p), "STRING">>, <<MInt(cs, p), "INT">>, <<MRadix(cs, p, 120, IsHex), "HEX">>,
-                 <<MRadix(cs, p, 111, IsOct8), "OCT">>, <<MRadix(cs, p, 98, IsBin), "BIN">>,
-                 <<MFloat(cs, p), "FLOAT">>, <<MDec(cs, p), "DECIMAL">> >>
-      low == << <<MIdent(cs, p), "IDENT">>, <<MIndex(cs, p), "INDEX">> >>
-      skip == Max(MWhite(cs, p), MComment(cs, p))
-      bestPat == CHOOSE i \in 1..Len(pats) : \A j \in 1..Len(pats) : pats[j][1] <= pats[i][1]
-      bestLow == CHOOSE i \in 1..Len(low) : \A j \in 1..Len(low) : low[j][1] <= low[i][1]
-      m == Max(Max(lit[1], pats[bestPat][1]), Max(low[bestLow][1], skip))
-  IN IF m = 0 THEN [k |-> "err", n |-> 0, c |-> ""]
-     ELSE IF skip = m /\ lit[1] < m /\ pats[bestPat][1] < m /\ low[bestLow][1] < m THEN [k |-> "skip", n |-> m, c |-> ""]
-     ELSE IF lit[1] = m THEN [k |-> "tok", n |-> m, c |-> lit[2]]
-     ELSE IF pats[bestPat][1] = m THEN [k |-> "tok", n |-> m, c |-> pats[bestPat][2]]
-     ELSE [k |-> "tok", n |-> m, c |-> low[bestLow][2]]
+  LET ch == cs[p] IN
+  IF IsWS(ch) THEN [k |-> "skip", n |-> MWhite(cs, p), c |-> ""]
+  ELSE IF IsLetter(ch) THEN
+       LET kw == BestKeyword(cs, p)
+           pat == CASE ch = 105 -> <<MInt(cs, p), "INT">> [] ch = 102 -> <<MFloat(cs, p), "FLOAT">>
+                    [] ch = 100 -> <<MDec(cs, p), "DECIMAL">> [] OTHER -> <<0, "">>
+           id == MIdent(cs, p)
+           m == Max(Max(kw[1], pat[1]), id)
+       IN IF kw[1] = m THEN Tok(m, kw[2]) ELSE IF pat[1] = m THEN Tok(m, pat[2]) ELSE Tok(m, "IDENT")
+  ELSE IF IsDigit(ch) THEN
+       LET r == IF ch = 48 THEN (CASE At(cs, p + 1) = 120 -> <<MRadix(cs, p, 120, IsHex), "HEX">>
+                                   [] At(cs, p + 1) = 111 -> <<MRadix(cs, p, 111, IsOct8), "OCT">>
+                                   [] At(cs, p + 1) = 98 -> <<MRadix(cs, p, 98, IsBin), "BIN">>
+                                   [] OTHER -> <<0, "">>)
+                ELSE <<0, "">>
+           ix == MIndex(cs, p)
+       IN IF r[1] >= ix THEN Tok(r[1], r[2]) ELSE Tok(ix, "INDEX")
+  ELSE IF ch = 34 THEN (LET n == MString(cs, p) IN IF n = 0 THEN [k |-> "err", n |-> 0, c |-> ""] ELSE Tok(n, "STRING"))
+  ELSE LET cm == MComment(cs, p) pu == BestPunct(cs, p) IN
+       IF cm > pu[1] THEN [k |-> "skip", n |-> cm, c |-> ""]
+       ELSE IF pu[1] > 0 THEN Tok(pu[1], pu[2]) ELSE [k |-> "err", n |-> 0, c |-> ""]
 
 RECURSIVE LexFrom(_, _, _)
 LexFrom(cs, p, acc) ==
